@@ -80,7 +80,8 @@ def dom_forms(d):
     out = [("dom:d.", "%d." % d, day("dom", d)),
            ("dom:dth", "%d%s" % (d, ordinal_suffix(d)), day("dom", d)),
            ("dom:the dth", "the %d%s" % (d, ordinal_suffix(d)), day("dom", d)),
-           ("dom:dten", "%dten" % d, day("dom", d)),
+           # ("Nten" is not a form of the grammar: it collides with the English hour word "ten")
+           ("dom:dter", "%dter" % d, day("dom", d)),
            ("dom:am d.", "am %d." % d, day("dom", d))]
     return out
 
